@@ -62,6 +62,7 @@ PROOFS = []
 
 
 def P(**kw):
+    # tier "experimental": registered for the record (attempted, does not finish on any back end), never run by a check
     kw.setdefault("tier", "quick")
     kw.setdefault("kind", "proof")
     PROOFS.append(kw)
@@ -278,7 +279,7 @@ P(name="alloc_multiple", props={"C20": FUNC + FRAME, "C06": FUNC + FRAME, "C13":
   lib=MEMLIB, stubs=ALLOC_STUBS, contracts=["contracts/memory_utils.h"],
   harness="harness/memutils.c", defines=["H_ALLOC_MULTIPLE"], enforce="_cbor_alloc_multiple",
   replace=["_cbor_safe_to_multiply"], backend="cvc5",
-  must_exist=[r"_cbor_alloc_multiple\.postcondition\.6"])
+  must_exist=[r"_cbor_alloc_multiple\.postcondition\.7"])
 
 P(name="realloc_multiple", props={"C20": [], "C12": [], "C06": [], "C13": [], "C01": SAFETY},
   lib=MEMLIB, stubs=ALLOC_STUBS, contracts=["contracts/memory_utils.h"],
@@ -572,17 +573,27 @@ P(name="cont_array_set", props={"C12": [], "C04": [], "C06": [], "C01": SAFETY},
 CONT("cbor_new_indefinite_map", ["H_CTOR", "CALL=cbor_new_indefinite_map()"], must=4, covers=2, cost=3)
 # Maps: bounded stand-ins (pair storage of at most 4 pairs; everything else symbolic), see harness/mkitem.h mk_map.
 MAP_BOUND = "maps with capacity <= 4 pairs (all fill levels, definite and indefinite, growth 0->1->2->4->8)"
-MAPKEY_REPL = ["cbor_isa_map", "cbor_map_is_definite", "cbor_map_handle", "_cbor_safe_to_multiply", "cbor_incref"]
-P(name="cont_map_add_key_bounded", kind="bounded", bound=MAP_BOUND, props=dict(CONT_PROPS), lib=ITEMLIB,
+# NOTE: cbor_map_handle must stay inlined: replaced by its contract it returns a pointer CBMC cannot resolve and every
+# pair access then ranges over all objects (out of memory)
+MAPKEY_REPL = ["cbor_isa_map", "cbor_map_is_definite", "_cbor_safe_to_multiply", "cbor_incref"]
+P(tier="experimental", name="cont_map_add_key", props=dict(CONT_PROPS), lib=ITEMLIB,
+  stubs=ITEM_STUBS + ["stubs/decref_ghost.c"], contracts=CONT_CONTRACTS, harness="harness/ops.c",
+  defines=["H_MAP_ADD_KEY"], enforce="_cbor_map_add_key", replace=MAPKEY_REPL,
+  must_exist=[r"_cbor_map_add_key\.postcondition\.8"], min_covers=7, cost=120, timeout=900)
+P(tier="experimental", name="cont_map_add", props=dict(CONT_PROPS), lib=ITEMLIB,
+  stubs=ITEM_STUBS + ["stubs/decref_ghost.c"], contracts=CONT_CONTRACTS, harness="harness/ops.c",
+  defines=["H_MAP_ADD"], enforce="cbor_map_add", replace=["cbor_isa_map", "_cbor_map_add_key", "_cbor_map_add_value"],
+  must_exist=[r"cbor_map_add\.postcondition\.6"], min_covers=7, cost=120, timeout=900)
+P(tier="experimental", name="cont_map_add_key_bounded", kind="bounded", bound=MAP_BOUND, props=dict(CONT_PROPS), lib=ITEMLIB,
   stubs=ITEM_STUBS + ["stubs/decref_ghost.c"], contracts=CONT_CONTRACTS, harness="harness/ops.c",
   defines=["H_MAP_ADD_KEY", "VERIF_MAP_CAP=4"], enforce="_cbor_map_add_key", replace=MAPKEY_REPL,
   must_exist=[r"_cbor_map_add_key\.postcondition\.8"], min_covers=7, cost=120, timeout=900)
-CONT("_cbor_map_add_value", ["H_MAP_ADD_VALUE"], replace=["cbor_isa_map", "cbor_map_handle", "cbor_incref"], must=2, covers=2, cost=30)
+CONT("_cbor_map_add_value", ["H_MAP_ADD_VALUE"], replace=["cbor_isa_map", "cbor_incref"], must=2, covers=2, cost=30)
 P(name="cont_map_add_value_bounded", tier="thorough", kind="bounded", bound=MAP_BOUND, props=dict(CONT_PROPS), lib=ITEMLIB,
   stubs=ITEM_STUBS + ["stubs/decref_ghost.c"], contracts=CONT_CONTRACTS, harness="harness/ops.c",
-  defines=["H_MAP_ADD_VALUE", "VERIF_MAP_CAP=4"], enforce="_cbor_map_add_value", replace=["cbor_isa_map", "cbor_map_handle", "cbor_incref"],
+  defines=["H_MAP_ADD_VALUE", "VERIF_MAP_CAP=4"], enforce="_cbor_map_add_value", replace=["cbor_isa_map", "cbor_incref"],
   must_exist=[r"_cbor_map_add_value\.postcondition\.2"], min_covers=2, cost=30)
-P(name="cont_map_add_bounded", kind="bounded", bound=MAP_BOUND, props=dict(CONT_PROPS), lib=ITEMLIB,
+P(tier="experimental", name="cont_map_add_bounded", kind="bounded", bound=MAP_BOUND, props=dict(CONT_PROPS), lib=ITEMLIB,
   stubs=ITEM_STUBS + ["stubs/decref_ghost.c"], contracts=CONT_CONTRACTS, harness="harness/ops.c",
   defines=["H_MAP_ADD", "VERIF_MAP_CAP=4"], enforce="cbor_map_add", replace=["cbor_isa_map", "_cbor_map_add_key", "_cbor_map_add_value"],
   must_exist=[r"cbor_map_add\.postcondition\.6"], min_covers=7, cost=120, timeout=900)
@@ -614,7 +625,7 @@ STACKLIB = ["cbor/internal/stack.c"]
 STACK_CONTRACTS = ["contracts/items_ro.h", "contracts/items_ops.h", "contracts/memory_utils.h", "contracts/items_cont.h", "contracts/stack.h"]
 for nm, d, fn, must, cov in (("init", "H_STACK_INIT", "_cbor_stack_init", 1, 1), ("push", "H_STACK_PUSH", "_cbor_stack_push", 6, 7),
                              ("pop", "H_STACK_POP", "_cbor_stack_pop", 2, 1)):
-    P(name="stack_" + nm, props={"C19": FUNC + FRAME, "C06": FUNC + FRAME, "C13": FUNC, "C01": SAFETY, "C17": FRAME, "C04": FUNC},
+    P(name="stack_" + nm, props={"C19": FUNC + FRAME, "C02": FUNC, "C06": FUNC + FRAME, "C13": FUNC, "C01": SAFETY, "C17": FRAME, "C04": FUNC},
       lib=STACKLIB, stubs=ITEM_STUBS + ["stubs/stack_limit.c"], contracts=STACK_CONTRACTS, harness="harness/stack.c",
       defines=[d, "CBOR_MAX_STACK_SIZE_IS_SYMBOLIC"], stack_symbolic=True, enforce=fn,
       must_exist=[r"%s\.postcondition\.%d" % (fn, must)], min_covers=cov, cost=5)
@@ -665,7 +676,7 @@ for w in ("0", "1", "2", "3"):
     SER("float_ctrl_w" + w, "FLOAT_CTRL", "cbor_serialize_float_ctrl", extra_defs=["VERIF_FLOAT_WIDTH=" + w], must=5, loops=False,
         props=dict(SER_PROPS, C15=FUNC))
 SER("array", "ARRAY", "cbor_serialize_array", must=6, covers=4)
-SER("map_bounded", "MAP", "cbor_serialize_map", must=6, covers=4, extra_defs=["VERIF_MAP_CAP=4"], kind="bounded", bound=MAP_BOUND)
+SER("map_bounded", "MAP", "cbor_serialize_map", must=6, covers=4, extra_defs=["VERIF_MAP_CAP=4"], kind="bounded", bound=MAP_BOUND, tier="experimental")
 SER("tag", "TAG", "cbor_serialize_tag", must=5, covers=2, replay="tag_readonly")
 SER("def_bytestring", "DEF_BYTESTRING", "cbor_serialize_bytestring", top="cbor_serialize_bytestring__top", must=6)
 SER("indef_bytestring", "INDEF_BYTESTRING", "cbor_serialize_bytestring", top="cbor_serialize_bytestring__top", must=6, covers=4)
@@ -681,7 +692,7 @@ for kind in ("INT", "FLOAT_CTRL", "DEF_BYTESTRING", "DEF_STRING", "INDEF_BYTESTR
 # cbor_decref on a map: the loop contract over the pair storage (pointer-typed loop variable `handle++`, two child
 # releases per iteration) ran out of memory on every back end tried (MiniSat, CaDiCaL, cvc5; 24 GB).  Bounded
 # stand-in: the map loop is unwound for maps of at most 3 pairs; the other loops keep their contracts.
-P(name="decref_map_bounded", kind="bounded", bound="maps with at most 3 stored pairs (capacity and everything else symbolic)",
+P(tier="experimental", name="decref_map_bounded", kind="bounded", bound="maps with at most 3 stored pairs (capacity and everything else symbolic)",
   props={"C04": FUNC + FRAME + ["loop"], "C13": [], "C01": SAFETY, "C06": [], "C17": FRAME},
   lib=ITEMLIB, stubs=ITEM_STUBS + ["stubs/decref_ghost.c"], contracts=DECREF_CONTRACTS, harness="harness/decref.c",
   defines=["KIND_MAP", "VERIF_FIXED_NODES", "MAP_BOUND=3", "VERIF_MAP_CAP=4"], enforce="cbor_decref", twins={"cbor_decref": "cbor_decref__child"},
@@ -741,3 +752,29 @@ for _p in PROOFS:
     for _pid, _prefixes in _TRIM.items():
         if _pid in _p["props"] and _p["name"].startswith(_prefixes):
             del _p["props"][_pid]
+
+# definite array / map constructors (slot initialisation loop)
+# goto-instrument 6.11 aborts ("get_loop_head_or_end: Unreachable") on ANY loop contract for cbor_new_definite_array
+# (two do{}while(0) macros precede the slot-initialisation loop): bounded stand-in, the loop is unwound for size <= 6
+P(name="cont_new_definite_array_bounded", kind="bounded", bound="preallocated size <= 6 (slot initialisation loop unwound)",
+  props=dict(CONT_PROPS), lib=ITEMLIB, stubs=ITEM_STUBS + ["stubs/decref_ghost.c"], contracts=CONT_CONTRACTS, harness="harness/ops.c",
+  defines=["H_CTOR", "CALL=cbor_new_definite_array((size_t)nd)", "CTOR_ARG_BOUND=6"], enforce="cbor_new_definite_array",
+  replace=["_cbor_alloc_multiple"], unwind=8, must_exist=[r"cbor_new_definite_array\.postcondition\.4"], min_covers=2, cost=30)
+CONT("cbor_new_definite_map", ["H_CTOR", "CALL=cbor_new_definite_map((size_t)nd)"], replace=["_cbor_alloc_multiple"], must=4, covers=2, cost=30)
+
+# ------------------------------------------------------------------------------------------------
+# L3 decode: _cbor_builder_append, one proof per kind of open item (push-down automaton transitions)
+BUILDLIB = COPYLIB
+BUILD_STUBS = COPY_STUBS + ["stubs/builder_ghost.c"]
+BUILD_CONTRACTS = CONT_CONTRACTS + ["contracts/stack.h", "contracts/builder.h"]
+BUILD_PROPS = {"C02": FUNC + FRAME, "C05": [], "C04": [], "C06": SAFETY, "C01": SAFETY, "C19": [], "C13": [], "C17": FRAME}
+for top in ("EMPTY", "DEF_ARRAY", "INDEF_ARRAY", "MAP", "TAG", "BYTESTRING", "STRING"):
+    bounded = top == "MAP"
+    P(name="append_" + top.lower() + ("_bounded" if bounded else ""), props=dict(BUILD_PROPS), lib=BUILDLIB, stubs=BUILD_STUBS,
+      contracts=BUILD_CONTRACTS, harness="harness/builder.c",
+      defines=["H_APPEND", "TOP_" + top] + (["VERIF_MAP_CAP=4"] if bounded else []),
+      enforce="_cbor_builder_append", twins={"_cbor_builder_append": "_cbor_builder_append__child"},
+      replace=["_cbor_builder_append__child", "cbor_array_push", "_cbor_map_add_key", "_cbor_map_add_value", "cbor_tag_set_item",
+               "cbor_decref", "_cbor_stack_pop"],
+      must_exist=[r"_cbor_builder_append\.postcondition\.5"], min_covers=1, cost=120, timeout=900, object_bits=10, mem_gb=20,
+      **(dict(kind="bounded", bound=MAP_BOUND) if bounded else {}))
